@@ -47,6 +47,10 @@ SubGraphLaw == ph # 2 \/ \A W \in SUBSET Labels : \A s \in SUBSET W :
                  EvalB(SubGraph(p, W, << >>), s) = EvalB(p, s) - Offset(p)
 RawLaw == ph # 2 \/ LET ts == SetToSeq({<<SetToSeq(m) \o SetToSeq(m), p[m]>> : m \in DOMAIN p})
           IN FromRawB(ts) = p /\ (FromRawS(ts) = Mono({}, SumOver(DOMAIN p, LAMBDA m : p[m])))
+\* nested use through operators that re-use parameter names (guards against evaluation-context mistakes)
+WrapSq(P) == MulB(P, P)
+WrapSq2(P, c) == WrapSq(Add(P, Const(c)))
+NestedLaw == ph # 2 \/ \A s \in Asg : EvalB(WrapSq2(p, 3), s) = (EvalB(p, s) + 3) * (EvalB(p, s) + 3)
 \* ----- pair laws -----
 AddLaw == ph = 4 => \A s \in Asg : EvalB(Add(p, q), s) = EvalB(p, s) + EvalB(q, s) /\ EvalS(Sub(p, q), s) = EvalS(p, s) - EvalS(q, s)
 MulBLaw == ph = 4 => \A s \in Asg : EvalB(MulB(p, q), s) = EvalB(p, s) * EvalB(q, s)
